@@ -354,7 +354,7 @@ class FuncModel:
                             out.add(b.id)
                     tgt = self.prog.repo.resolve_call(self.f, x)
                     if tgt and not tgt.startswith("ext:"):
-                        out |= self.prog.heap_writes(tgt)
+                        out |= self.prog.heap_writes_call(self.f, x)
                     elif isinstance(x.func, ast.Attribute):
                         d = dotted(x.func) or ""
                         if d.endswith("dag.add_node"):
@@ -541,7 +541,7 @@ class Program:
     def __init__(self, root: str = "/repo"):
         self.repo = Repo(root)
         self._models: dict[str, FuncModel] = {}
-        self._heap: dict[str, set[str]] | None = None
+        self._heap: dict | None = None
         self._sd_locals: dict[str, set[str]] = {}
         self._raise: dict | None = None
 
@@ -582,54 +582,70 @@ class Program:
                     out.add(n.target.id)
         return out
 
-    # ---- heap-write summaries (transitive)
-    def heap_writes(self, key: str) -> set[str]:
+    # ---- heap-write summaries (transitive, specialised on constant Boolean arguments)
+    def heap_sites(self, key: str) -> list[tuple[frozenset, frozenset]]:
+        """[(locations written, parameters that must be truthy for the site to execute)]"""
         if self._heap is None:
-            direct: dict[str, set[str]] = {}
-            for f in self.repo.funcs():
-                w: set[str] = set()
-                fm = None
-                for n in own_walk(f.node):
-                    if isinstance(n, ast.Subscript) and isinstance(n.ctx, (ast.Store, ast.Del)) \
-                            and isinstance(n.slice, ast.Constant) and isinstance(n.slice.value, str):
-                        # cheap syntactic test first: is the base a handle (directly or via alias)?
-                        fm = fm or self.model(f)
-                        try:
-                            cn = fm.cfgn(n)
-                        except AnalysisError:
-                            continue
-                        if fm.handle(n.value, cn, check_stale=False) is not None:
-                            w.add("F:" + n.slice.value)
-                    elif isinstance(n, ast.Subscript) and isinstance(n.ctx, (ast.Store, ast.Del)):
-                        d = dotted(n.value) or ""
-                        if d.endswith("node_indices"):
-                            w.add("*index")
-                    elif isinstance(n, ast.Call) and isinstance(n.func, ast.Attribute):
-                        d = dotted(n.func) or ""
-                        if d.endswith("dag.add_node"):
-                            w |= {"*nodes"}  # fields of a *new* node: no existing handle is affected
-                        elif d.endswith("dag.add_edge"):
-                            w.add("*edges")
-                        elif ".dag." in d and n.func.attr.startswith(("remove", "clear")):
-                            w |= {"*nodes", "*edges", "F:*"}
-                        elif n.func.attr == "append" and "all_motifs" in ast.unparse(n.func.value):
-                            w.add("*motifs")
-                direct[f.key] = w
-            # transitive closure
-            heap = {k: set(v) for k, v in direct.items()}
-            changed = True
-            cg = self.repo.callgraph
-            while changed:
-                changed = False
-                for k in heap:
-                    for t in cg.get(k, ()):
-                        # a nested def is "called" by its parent only if really referenced; keep simple
-                        add = heap.get(t, set()) - heap[k]
-                        if add:
-                            heap[k] |= add
-                            changed = True
-            self._heap = heap
-        return self._heap.get(key, set())
+            self._heap = {}
+        if key in self._heap:
+            return self._heap[key]
+        self._heap[key] = []  # recursion guard
+        f = self.repo.functions[key]
+        fm = self.model(f)
+        sites: list[tuple[frozenset, frozenset]] = []
+        for n in own_walk(f.node):
+            w: set[str] = set()
+            if isinstance(n, ast.Subscript) and isinstance(n.ctx, (ast.Store, ast.Del)):
+                if isinstance(n.slice, ast.Constant) and isinstance(n.slice.value, str):
+                    try:
+                        cn = fm.cfgn(n)
+                    except AnalysisError:
+                        continue
+                    if fm.handle(n.value, cn, check_stale=False) is not None:
+                        w.add("F:" + n.slice.value)
+                d = dotted(n.value) or ""
+                if d.endswith("node_indices"):
+                    w.add("*index")
+            elif isinstance(n, ast.Call):
+                if isinstance(n.func, ast.Attribute):
+                    d = dotted(n.func) or ""
+                    if d.endswith("dag.add_node"):
+                        w |= {"*nodes"}  # fields of a *new* node: no existing handle is affected
+                    elif d.endswith("dag.add_edge"):
+                        w.add("*edges")
+                    elif ".dag." in d and n.func.attr.startswith(("remove", "clear")):
+                        w |= {"*nodes", "*edges", "F:*"}
+                    elif n.func.attr == "append" and "all_motifs" in ast.unparse(n.func.value):
+                        w.add("*motifs")
+                tgt = self.repo.resolve_call(f, n)
+                if tgt and not tgt.startswith("ext:") and tgt != key:
+                    w |= self.heap_writes_call(f, n)
+            if w:
+                sites.append((frozenset(w), self._requires(fm, n)))
+        # nested closures passed around as callbacks
+        for k, g in self.repo.functions.items():
+            if g.parent is f:
+                for locs, _ in self.heap_sites(k):
+                    sites.append((locs, frozenset()))
+        self._heap[key] = sites
+        return sites
+
+    def heap_writes(self, key: str) -> set[str]:
+        out: set[str] = set()
+        for locs, _ in self.heap_sites(key):
+            out |= locs
+        return out
+
+    def heap_writes_call(self, f: Func, call: ast.Call) -> set[str]:
+        tgt = self.repo.resolve_call(f, call)
+        if not tgt or tgt.startswith("ext:"):
+            return set()
+        callee = self.repo.functions[tgt]
+        out: set[str] = set()
+        for locs, req in self.heap_sites(tgt):
+            if self._site_feasible(callee, {"requires": req}, call):
+                out |= locs
+        return out
 
     # ---- may-raise summaries -------------------------------------------------------------
     def raise_sites(self, key: str, cls: str = "RuntimeError") -> list[dict]:
